@@ -128,6 +128,9 @@ def run(an: Analysis, rep):
     shh = SharedRules(rep, "R01.H2", "the encoder lays co_varnames out as CPython does and counts the parameters from the right fields (shared with C04's R04.3 / R04.4)")
     rep.run(c04.r043, an, shh)
     rep.run(c04.r044, an, shh)
+    from . import c11 as _c11q, c05 as _c05k
+    rep.run(_c11q.r11q, an, SharedRules(rep, "R01.Q", "the guard that refuses repeated free variable names refuses nothing else (shared with C11's R11.Q)"), "R11.Q")
+    rep.run(_c05k.r05k, an, SharedRules(rep, "R01.K2", "constants are handed to CodeType with value and type unchanged (shared with C05's R05.K2): 'constants (type- and bit-exact)'"), "R05.K2")
     from . import c08 as _c08s
     rep.run(_c08s.r083, an, SharedRules(rep, "R01.B", "what the decoder stores has the declared (hashable) shape (shared with C08's R08.3): a list in a tuple field makes from_code of the enclosing code object raise"))
     shw = SharedRules(rep, "R01.W2", "width decisions and re-layout of the encoder (shared with C03's R03.5 / R03.7): co_code of the re-encoded object")
